@@ -189,6 +189,8 @@ class Histogram1D(ObjectWithBinning, HistogramBase):
         a_copy = super().copy(include_frequencies=include_frequencies)
         if include_frequencies:
             a_copy._stats = dataclasses.replace(self.statistics)
+        else:
+            a_copy._stats = Statistics()
         return a_copy
 
     @property
